@@ -1,4 +1,6 @@
 import Driver.Framing
+import TonicModel.Model.LimitCfg
+import TonicModel.Spec.LimitCfg
 namespace DriverC06
 open Proto Framing DriverFraming
 
@@ -109,9 +111,7 @@ def handleLimGen (case obs : List String) : String × String :=
 in order, ahead of the status, whose code is OUT_OF_RANGE for an oversized message; nothing of
 the oversized message is sent.  dec: frames are accepted iff payload length ≤ limit; the first
 oversized one yields OUT_OF_RANGE (even when only its 5-byte prefix has arrived). -/
-def handle (case obs : List String) : String × String :=
-  if case.head? = some "lim.gen" then handleLimGen case obs else
-  if case.head? = some "lim.srv" ∨ case.head? = some "lim.cli" then handleLim case obs else
+def handleFraming (case obs : List String) : String × String :=
   match parseCase case with
   | none => bad
   | some fc =>
@@ -146,4 +146,93 @@ def handle (case obs : List String) : String × String :=
                    ("no-oversize-reservation", !obs.contains "a1"),
                    ("accepted-iff-within-limit", obsMsgs (beforeStatus obs) == within),
                    ("oversized-refused-with-out-of-range", !over || st == some "e11:t")])
+
+/-! ### `lim.seq`: one `Grpc` value through a program of configuration statements and calls
+(grammar: harness/src/c06_x.rs).  The model column is `LimitCfg.runServer` / `runClient`; the
+verdict compares the observation with `Spec.LimitCfg`, which reads the limit in force at each call
+off the program text (`C06_limit_program_server` / `_client`: the two agree on every program). -/
+
+open LimitProg in
+def parseMsgLen (s : String) : Option Nat :=
+  match s.splitOn "/" with
+  | [r] => r.toNat?
+  | [_, w] => w.toNat?        -- travels compressed: the wire length counts
+  | _ => none
+
+def parseMsgs (s : String) : Option (List Nat) :=
+  if s = "" ∨ s = "-" then some [] else (s.splitOn ",").mapM parseMsgLen
+
+open LimitProg in
+def parseShape (c : Char) : Option Shape :=
+  if c = 'u' then some .unary else if c = 's' then some .serverStreaming
+  else if c = 'c' then some .clientStreaming else if c = 'd' then some .streaming else none
+
+open LimitProg in
+def parseStmt (server : Bool) (s : String) : Option Stmt :=
+  let o := fun (x : String) => if x = "-" then some none else x.toNat?.map some
+  match s.splitOn ":" with
+  | [head, qs, rs] =>
+    match head.toList with
+    | [sh, z] =>
+      match parseShape sh, parseMsgs qs, parseMsgs rs with
+      | some sh, some qs, some rs => if qs.isEmpty || rs.isEmpty then none else some (.call ⟨sh, z = 'z', qs, rs⟩)
+      | _, _, _ => none
+    | _ => none
+  | [t] =>
+    if t = "zA" then some (.op .acceptZ) else if t = "zS" then some (.op .sendZ)
+    else if t = "k" then (if server then none else some (.op .clone))
+    else match t.toList with
+      | 'd' :: cs => (String.ofList cs).toNat?.map (fun l => .op (.setDec l))
+      | 'e' :: cs => (String.ofList cs).toNat?.map (fun l => .op (.setEnc l))
+      | 'a' :: cs =>
+        if !server then none else
+        match (String.ofList cs).splitOn "/" with
+        | [d, e] => match o d, o e with
+          | some d, some e => some (.op (.apply d e))
+          | _, _ => none
+        | _ => none
+      | _ => none
+  | _ => none
+
+open LimitProg in
+def srvTok (o : SrvObs) : String := s!"{o.code},h{o.h},m{o.m},r{o.r}"
+
+open LimitProg in
+def cliTok (o : CliObs) : String :=
+  s!"s{o.s},r{o.r}," ++ (match o.code with | some c => s!"err{c}" | none => "ok")
+
+/-- the status part of a call token (server: code and handler runs; client: the final word) -/
+def statusPart (server : Bool) (t : String) : String :=
+  let ps := t.splitOn ","
+  if server then String.intercalate "," (ps.take 2) else String.intercalate "," (ps.drop 2)
+
+def handleLimSeq (case obs : List String) : String × String :=
+  match case with
+  | _ :: side :: stmts =>
+    let server := side = "s"
+    if side ≠ "s" ∧ side ≠ "c" then bad else
+    match stmts.mapM (parseStmt server) with
+    | none => bad
+    | some prog =>
+      let model := if server then (LimitCfg.runServer LimitCfg.Cfg.init prog).map srvTok
+                   else (LimitCfg.runClient LimitCfg.Cfg.init prog).map cliTok
+      let expected := if server then (Spec.LimitCfg.runServer [] prog).map srvTok
+                      else (Spec.LimitCfg.runClient [] prog).map cliTok
+      (String.intercalate " " model,
+       verdict [("no-panic", !obs.any isBad), ("no-lost-wakeup", !obs.any (fun t => (t.splitOn ",").contains "lost-wakeup")),
+                ("refused-iff-over-the-limit-in-force", obs.map (statusPart server) == expected.map (statusPart server)),
+                ("earlier-messages-delivered-before-status", obs == expected)])
+  | _ => bad
+
+def handle (case obs : List String) : String × String :=
+  match case with
+  | "lim.gen" :: _ => handleLimGen case obs
+  -- the generated pair reached along another path (clone, Routes, interceptors, builder order,
+  -- an earlier call, other constructors): the path is invisible
+  | "lim.genp" :: _ :: rest => handleLimGen ("lim.gen" :: rest) obs
+  | "lim.srv" :: _ | "lim.cli" :: _ => handleLim case obs
+  | "lim.seq" :: _ => handleLimSeq case obs
+  -- a body that gives size hints: the hints are invisible
+  | "dech" :: _ :: _ :: rest => handleFraming rest obs
+  | _ => handleFraming case obs
 end DriverC06
